@@ -178,7 +178,11 @@ func judgeC07(c *fw.Ctx, id string, run *batchRun) {
 			}
 			continue
 		}
-		if i == run.OwnCtx && (b.Trigger == "own-ctx-sibling-retried" || b.Trigger == "own-ctx-while-locating") {
+		if i != run.OwnCtx && isCtxErr(res.Error) && run.CancelledAt == 0 && run.Elapsed < b.Deadline {
+			// neither the batch context nor this call's context has ended
+			c.Violate(id, "batch:context-error-in-wrong-slot", fmt.Sprintf("slot %d (%s) holds %v although only call %d's own context ended: %s", i, opid, res.Error, run.OwnCtx, b), b)
+		}
+		if i == run.OwnCtx && (b.Trigger == "own-ctx-sibling-retried" || b.Trigger == "own-ctx-while-locating" || b.Trigger == "own-ctx-retry-round-lookup") {
 			// its reply is released only after SendBatch has returned: the call
 			// must end with its own context error, nothing else is judged
 			c.Count("own_context_calls_checked", 1)
